@@ -12,6 +12,7 @@ import (
 
 	"verif/core"
 	_ "verif/props/c04"
+	"verif/props/chainprops"
 )
 
 func main() {
@@ -71,6 +72,8 @@ func main() {
 			os.Exit(1)
 		}
 		os.Exit(0)
+	case "trace":
+		chainprops.Trace(os.Args[2], os.Args[3:])
 	case "selftest":
 		os.Exit(selftest())
 	case "list":
